@@ -6,7 +6,7 @@ import random
 
 from .. import tlc
 from .. import tracecheck
-from ..common import MachineryError, NCPU
+from ..common import MachineryError, NCPU, load_known_findings
 from ..harness import cdriver, clientcheck
 
 INVS = ['TypeOK', 'C08_OneDisconnectPerConnect', 'C08_ConnectedHasOpenCycle', 'C08_CleanAfter',
@@ -148,6 +148,9 @@ def random_scripts(seed, n, length, trs=None, weights=None):
 def replay_client_trace(pid, path):
     with open(path) as f:
         rp = json.load(f)
+    if rp.get('kind') == 'l2-client-trace':
+        rp['_path'] = path
+        return replay_l2_client(pid, rp)
     if rp.get('kind') != 'client-trace':
         print(json.dumps(rp, indent=1)[:3000])
         return 1
@@ -171,3 +174,106 @@ def replay_client_trace(pid, path):
     print(json.dumps(d, indent=1)[:5000])
     print('VIOLATION property=%s replay=%s' % (pid, path))
     return 1
+
+
+# ---- L2: the threaded client at one primitive per step (EioClientFine) ------------------------
+
+def l2_client(ck, th, seed):
+    """TLC on EioClientFine (every interleaving of the application thread, the write loop, the
+    read loop and the server end), then pre-emptive executions of the real threaded Client
+    validated primitive by primitive.  OneDisconnect fails in the model and on some real
+    schedules: known finding F27."""
+    from .. import tlc
+    from ..harness import l2
+    opn, _ = load_known_findings(ck.pid)
+    f27 = [e for e in opn if e['id'] == 'F27']
+    base = dict(MaxSend=3 if th else 2, Cap=2, SrvMayClose='TRUE', Timeouts='TRUE')
+    jobs = [dict(name='L2 client (websocket): application burst + disconnect(), write loop, read '
+                      'loop, server end closing / disconnecting: event and frame-order invariants',
+                 spec='Spec', consts=base, invariants=['TypeOK', 'AtMostOnePerCause', 'TxInOrder']),
+            dict(name='L2 client liveness under fair scheduling: the three tasks end, the client is '
+                      'disconnected', spec='FairSpec', consts=dict(base, MaxSend=1),
+                 properties=['AllEnd']),
+            dict(name='L2 client: one disconnect event per connection - expected to fail (finding '
+                      'F27: disconnect() changes the state only after its two puts)',
+                 spec='Spec', consts=dict(base, MaxSend=1), invariants=['OneDisconnect'], f27=True)]
+    for j in jobs:
+        cfg = tlc.cfg_text(spec=j['spec'], constants=j['consts'], invariants=j.get('invariants', ()),
+                           properties=j.get('properties', ()))
+        r = tlc.run('EioClientFine', cfg, workers=max(2, NCPU // 2), timeout=1200,
+                    constants=j['consts'])
+        if r.error:
+            raise MachineryError('TLC job %s failed: %s\n%s' % (j['name'], r.error, r.out[-2000:]))
+        ck.add_tlc(r, j['name'])
+        if j.get('f27'):
+            txt = '\n'.join(r.trace)
+            if r.violated and f27 and '"client"' in txt.split('/\\ ev = ')[-1][:60]:
+                ck.known_finding('F27', f27[0]['what'])
+                ck.cov.setdefault('known_finding_counterexamples', []).append(
+                    {'model': j['name'], 'length': len(r.trace)})
+            elif r.violated:
+                ck.violation('EioClientFine: OneDisconnect violated and the finding is not listed',
+                             {'counterexample': txt[-6000:]})
+            continue
+        if r.violated:
+            ck.violation('EioClientFine: %s violated (%s)' % (r.violated, j['name']),
+                         {'job': j['name'], 'counterexample': '\n'.join(r.trace)[-8000:]})
+        elif r.distinct < 500:
+            raise MachineryError('vacuity: %s has only %d states' % (j['name'], r.distinct))
+    n = 400 if th else 80
+    groups = {}
+    for i in range(n):
+        k = i % 4
+        t, f = l2.run_client(k, i % 3 == 0, seed=seed * 100043 + i)
+        groups.setdefault(k, []).append((t, f))
+        ck.distinct(['l2client', k, i % 3 == 0, f['schedule_seed']])
+    nacc = ntot = nf27 = 0
+    for k, items in groups.items():
+        c = dict(MaxSend=k, Cap=16, SrvMayClose='TRUE', Timeouts='FALSE')
+        v = tracecheck.validate('EioClientFineTrace', [x[0] for x in items], constants=c,
+                                invariants=['TypeOK', 'AtMostOnePerCause', 'TxInOrder'])
+        ck.cov['states'] += v.states
+        ck.cov['transitions'] += v.generated
+        nacc += len(v.accepted)
+        ntot += len(items)
+        for i in v.rejected[:3]:
+            ck.violation('primitive-level client trace rejected by EioClientFine (schedule seed %s)'
+                         % items[i][1]['schedule_seed'],
+                         {'script': items[i][1]['script'], 'schedule_seed': items[i][1]['schedule_seed'],
+                          'trace': items[i][0], 'kind': 'l2-client-trace'})
+        for i, inv, txt in v.inv_violations[:3]:
+            ck.violation('EioClientFine invariant %s violated on a real execution' % inv,
+                         {'script': items[i][1]['script'], 'schedule_seed': items[i][1]['schedule_seed'],
+                          'tlc': txt, 'kind': 'l2-client-trace'})
+        for t, f in items:
+            if len(t['final']['ev']) > 1:
+                nf27 += 1
+                if f27:
+                    ck.known_finding('F27', f27[0]['what'])
+                else:
+                    ck.violation('two client disconnect events for one connection (schedule seed %s)'
+                                 % f['schedule_seed'],
+                                 {'script': f['script'], 'schedule_seed': f['schedule_seed'],
+                                  'trace': t, 'kind': 'l2-client-trace'})
+    ck.cov['f27_schedules'] = nf27
+    ck.add_conformance('threaded Client on websocket with a scripted server end under pre-emptive '
+                       'schedules: every primitive of the send queue and of the websocket (call of '
+                       'put, put, call of get, get, send, close, receive) and every task return is '
+                       'one step of EioClientFine; final state, events, frames sent must match',
+                       ntot, nacc)
+
+
+def replay_l2_client(pid, rp):
+    from ..harness import l2
+    t, f = l2.run_client(rp['script']['k'], rp['script']['srv'], seed=rp['schedule_seed'])
+    c = dict(MaxSend=rp['script']['k'], Cap=16, SrvMayClose='TRUE', Timeouts='FALSE')
+    v = tracecheck.validate('EioClientFineTrace', [t], constants=c,
+                            invariants=['TypeOK', 'AtMostOnePerCause', 'TxInOrder'])
+    if v.accepted and not v.inv_violations:
+        print('replay: primitive-level client trace accepted by EioClientFine; events %r'
+              % t['final']['ev'])
+        return 0
+    print(json.dumps(t)[:4000])
+    print('VIOLATION property=%s replay=%s' % (pid, rp.get('_path', '?')))
+    return 1
+
